@@ -98,6 +98,37 @@ Theorem C08_map_insertion_order_irrelevant :
          rank0 M (VMapping m ks vs) (VMapping m ks' vs') = R Eq.
 Proof. exact compare_map_order_free. Qed.
 
+Theorem C08_map_entry_added_or_removed :
+  forall (M : nat) (m : mkind) (ks vs ks' vs' : list val),
+         is_map_kind m = true ->
+         length (zipkv ks vs) <> length (zipkv ks' vs') ->
+         nest (VMapping m ks vs) <= M ->
+         nest (VMapping m ks' vs') <= M ->
+         compare0 M (VMapping m ks vs) (VMapping m ks' vs') = R false.
+Proof. exact compare_map_length. Qed.
+
+Theorem C08_map_one_value_changed :
+  forall (M : nat) (m : mkind) (k : val) (ks : list val) (v v' : val) (vs : list val),
+         is_map_kind m = true ->
+         inW M (VMapping m (k :: ks) (v :: vs)) = true ->
+         inW M (VMapping m (k :: ks) (v' :: vs)) = true ->
+         compare0 M (VMapping m (k :: ks) (v :: vs)) (VMapping m (k :: ks) (v' :: vs)) =
+         compare0 M v v'.
+Proof. exact compare_map_one_value_changed. Qed.
+
+Theorem C08_map_one_key_renamed :
+  forall (M : nat) (m : mkind) (k k' : val) (ks : list val) (v : val) (vs : list val),
+         is_map_kind m = true ->
+         inW M (VMapping m (k :: ks) (v :: vs)) = true ->
+         inW M (VMapping m (k' :: ks) (v :: vs)) = true ->
+         keq k k' = false ->
+         compare0 M (VMapping m (k :: ks) (v :: vs)) (VMapping m (k' :: ks) (v :: vs)) = R false.
+Proof. exact compare_map_key_renamed. Qed.
+
+Theorem C08_compare_reflexive_needs_no_nan_keys_refuted :
+  exists (M : nat) (a : val), inU M a = true /\ rank0 M a a = R Eq /\ compare0 M a a = R false.
+Proof. exact compare_refl_needs_no_nan_keys_refuted. Qed.
+
 Theorem C08_depth_limit_panic_on_nested_chain :
   forall M : nat,
          rank0 M (nestk (S M)) (nestk (S M)) = DepthPanic /\
@@ -203,6 +234,10 @@ Print Assumptions C08_sequence_one_element_changed_unequal.
 Print Assumptions C08_sequence_element_added_or_removed.
 Print Assumptions C08_different_types_or_kinds_unequal.
 Print Assumptions C08_map_insertion_order_irrelevant.
+Print Assumptions C08_map_entry_added_or_removed.
+Print Assumptions C08_map_one_value_changed.
+Print Assumptions C08_map_one_key_renamed.
+Print Assumptions C08_compare_reflexive_needs_no_nan_keys_refuted.
 Print Assumptions C08_depth_limit_panic_on_nested_chain.
 Print Assumptions C08_depth_limit_panic_rank_any_value.
 Print Assumptions C08_depth_limit_panic_compare_any_value.
